@@ -74,6 +74,7 @@ type Explorer struct {
 	stubsUsed    map[string]int
 	shard        int
 	random       *rand.Rand
+	LockEdges    map[string]LockEdge
 	lastObserves []string
 }
 
@@ -81,6 +82,23 @@ func NewExplorer(vm *VM, cfg *RunCfg) *Explorer {
 	ex := &Explorer{vm: vm, cfg: cfg, PathKinds: map[string]int{}, Violations: map[string]*Violation{}, Reached: map[string]int{}, Asserts: map[string]int{}, Funcs: map[string]bool{}, stubsUsed: map[string]int{}}
 	vm.ex = ex
 	return ex
+}
+
+type LockEdge struct {
+	From, To, Root, PosFrom, PosTo string
+}
+
+func (ex *Explorer) noteLockEdge(from, to, root, pf, pt string) {
+	if from == "" || to == "" || from == to {
+		return
+	}
+	k := from + "->" + to
+	if ex.LockEdges == nil {
+		ex.LockEdges = map[string]LockEdge{}
+	}
+	if _, ok := ex.LockEdges[k]; !ok {
+		ex.LockEdges[k] = LockEdge{from, to, root, pf, pt}
+	}
 }
 
 func (ex *Explorer) noteFunc(fn *ssa.Function) {
@@ -497,6 +515,7 @@ type Report struct {
 	Verdict      string // HOLDS | VIOLATED | INCONCLUSIVE
 	MaxTraceLen  int
 	Stubs        map[string]int
+	LockEdges    map[string]LockEdge
 }
 
 func (ex *Explorer) Run(runPath func() *PathResult) *Report {
@@ -583,7 +602,7 @@ func (ex *Explorer) Run(runPath func() *PathResult) *Report {
 	}
 	r := &Report{Cfg: ex.cfg, Paths: ex.Paths, PathKinds: ex.PathKinds, Inconclusive: ex.Inconclusive, Reached: ex.Reached,
 		Asserts: ex.Asserts, Obligations: ex.Obligations, Discharged: ex.Discharged, DecisionPts: ex.DecisionPts, Steps: ex.Steps,
-		Samples: ex.Samples, Complete: complete, MaxTraceLen: ex.MaxTraceLen, Stubs: ex.stubsUsed}
+		Samples: ex.Samples, Complete: complete, MaxTraceLen: ex.MaxTraceLen, Stubs: ex.stubsUsed, LockEdges: ex.LockEdges}
 	for _, l := range ex.violOrder {
 		r.Violations = append(r.Violations, ex.Violations[l])
 	}
